@@ -97,6 +97,13 @@ def show(b):
     return t if len(t) <= 24 else '%s..%s(%d)' % (t[:6], t[-3:], len(t))
 
 
+def sh(x):
+    """driver result tuple with its byte strings shortened for messages"""
+    if isinstance(x, tuple):
+        return tuple(show(v) if isinstance(v, bytes) else v for v in x)
+    return x
+
+
 def bits(mask):
     return [k for k in range(NA) if mask >> k & 1]
 
@@ -453,12 +460,12 @@ def judge_typelib_output(cases, lines, plan, part, counts):
             counts['lookups'] += 1
             if exp is None:
                 if got is not None:
-                    flag(ci, 'false-hit', '%s by %s: absent probe %r returned entry %r' % (label, field, show(probe), got))
+                    flag(ci, 'false-hit', '%s by %s: absent probe %r returned entry %r' % (label, field, show(probe), sh(got)))
             elif got is None:
                 flag(ci, 'miss', '%s by %s: member %r not found' % (label, field, show(probe)))
             elif got == 'BAD' or got[:3] != (exp['index'], exp['blob_type'], exp['offset']) or got[3] != exp['name']:
                 flag(ci, 'wrong-entry', '%s by %s: probe %r returned %r, expected entry #%d %r'
-                     % (label, field, show(probe), got, exp['index'], show(exp['name'])))
+                     % (label, field, show(probe), sh(got), exp['index'], show(exp['name'])))
         # ---- repository level ---------------------------------------------------------------------------
         # find_by_name searches namespace s; find_by_gtype / find_by_error_domain search every loaded namespace
         rexp, rns = exp, case.ns[s]
@@ -483,13 +490,13 @@ def judge_typelib_output(cases, lines, plan, part, counts):
             if rexp is None:
                 if got is not None:
                     flag(ci, 'false-hit', '%s %s(%r)%s returned %r' % (label, fn, show(probe),
-                         ' before any namespace was loaded' if phase == 'before' else '', got))
+                         ' before any namespace was loaded' if phase == 'before' else '', sh(got)))
             elif got is None:
                 flag(ci, 'miss', '%s %s(%r) found nothing; typelib-level lookup finds entry #%d %r in %s'
                      % (label, fn, show(probe), rexp['index'], show(rexp['name']), rns.decode()))
             elif got != (rexp['blob_type'], rexp['offset'], rexp['name'], rns):
                 flag(ci, 'wrong-entry', '%s %s(%r) returned %r, expected (%d, %d, %r, %r)'
-                     % (label, fn, show(probe), got, rexp['blob_type'], rexp['offset'], show(rexp['name']), rns.decode()))
+                     % (label, fn, show(probe), sh(got), rexp['blob_type'], rexp['offset'], show(rexp['name']), rns.decode()))
         if exp is not None or rexp is not None:
             counts['must_found'] += 1
         part.outcome((op, phase, exp is not None, rexp is not None, t[1] != '-', t[3] not in ('-', 'na')))
@@ -753,14 +760,14 @@ def _work_ladder_probe(chunk):
                                                     got == (exp['index'], exp['blob_type'], exp['offset'], exp['name']))
             if not ok and first is None:
                 first = 'probe %r: typelib-level lookup returned %r, expected %s' % (
-                    show(p), got, 'absent' if exp is None else 'entry #%d' % exp['index'])
+                    show(p), sh(got), 'absent' if exp is None else 'entry #%d' % exp['index'])
         for tok in infos:
             got = parse_info(tok)
             nlook += 1
             ok = (got is None) if exp is None else (got == (exp['blob_type'], exp['offset'], exp['name'], b'Test'))
             if not ok and first is None:
                 first = 'probe %r: g_irepository_find_by_name returned %r, expected %s' % (
-                    show(p), got, 'absent' if exp is None else 'entry #%d' % exp['index'])
+                    show(p), sh(got), 'absent' if exp is None else 'entry #%d' % exp['index'])
     part.add(evaluations=nlook, lookups_typelib=nlook, traces_validated_against_impl=1 if lo == 0 else 0)
     part.nontrivial('LT%d' % n)
     part.outcome(('ladder-probed', n, hasidx, first is None))
@@ -891,6 +898,8 @@ def run(ctx):
         'add_directory_index_section is exercised only through g-ir-compiler (explorers T and L)',
         'x86-64 little-endian only',
     ]
+    if ctx.violations:
+        return          # crashes of the code under test thin the exploration out; they are the verdict, not vacuity
     if ctx.cov['traces_validated_against_impl'] < 100 or len(ctx._outcomes) < 20:
         raise HarnessBroken('vacuous exploration: %d traces, %d outcomes'
                             % (ctx.cov['traces_validated_against_impl'], len(ctx._outcomes)))
